@@ -183,6 +183,12 @@ FailedCall(t) ==
   /\ db'  = WithoutAll(db, tx[t].created)
   /\ SetTx(t, [tx[t] EXCEPT !.st = "done", !.outcome = "rolledback"])
 
+\* C38: the caller modifies, in place, a value or item it obtained from a read.  Nothing changes: not the
+\* committed contents, not any transaction's view, not what anybody reads later.
+Scribble(t) ==
+  /\ Live(t)
+  /\ UNCHANGED vars
+
 \* ---- end of transaction ----
 CommitStart(t) ==
   /\ Active(t)
